@@ -564,6 +564,7 @@ func c17Run(w *run.Worker) {
 	c17Chains(w)
 	c17LoadFaults(w)
 	c17UseChainFaults(w)
+	c17CheckFaultChains(w)
 	c17Lookup(w)
 	c17RunFaults(w)
 	c17Trees(w)
@@ -628,6 +629,19 @@ func c17Replay(raw json.RawMessage) (bool, string) {
 		}
 		probs := c17UseChainCheck(map[string]string{"s.p": a[0], "m.p": b[0], "l.p": b[1]})
 		return len(probs) > 0, fmt.Sprint(probs)
+	case "check-fault-chain":
+		_, errs := drv.Load(map[string]string{"s.p": c.Source})
+		pe, _ := errs["s.p"].(*errchain.PlError)
+		if pe == nil {
+			return false, fmt.Sprint(errs["s.p"])
+		}
+		bad := false
+		for i, p := range pe.PosChain {
+			if i > 0 && p.Pos >= 0 && p.Pos < len(c.Source) && c.Source[p.Pos] == '{' {
+				bad = true
+			}
+		}
+		return bad, pe.Error()
 	case "lookup":
 		pc := token.NewPosCache(c.Text)
 		got := pc.LnCol(token.Pos(c.Offset))
